@@ -30,6 +30,34 @@ CLAIMED = {
     },
 }
 
+CLAIMED["C02"] = {
+    "text": "Decides, for all datasets and all ratios/indices at once, that every dataset operation selects its parallel containers "
+            "consistently: each output container is traced through the symbolic value that builds it back to the input's five "
+            "containers with the selection operations applied (select, split_at, slice, raw-buffer head/tail, index_axis, "
+            "collapse_axis, in-place axis slicing, normalised to row- and column-space selectors); targets carry the records' row "
+            "selector, weights carry it or are empty, names carry their container's column selector or are dropped; the label "
+            "filter pushes record, target, weight and counts under one condition; per-feature/per-target iteration attaches the "
+            "name at the collapsed index. Not decided: that the selector itself is the documented one (ceil(ratio*n), a "
+            "permutation, in-range indices).",
+    "design_ref": "DESIGN.md section 4, C02",
+    "note": "Trusted: rustc resolution/typeck, the fact dump, documented semantics of ndarray selection methods and Vec::split_off.",
+    "technique": _T + ": provenance trace of output containers with selector extraction and sibling agreement of selectors",
+}
+
+CLAIMED["C03"] = {
+    "text": "Decides structural necessary conditions of 'batch prediction equals row-by-row prediction through every calling form' for "
+            "every PredictInplace impl (27) and the four blanket Predict forms: the forms call default_target and predict_inplace once "
+            "on the received records and hand them back; every predict_inplace checks batch rows against the output before writing, "
+            "every default_target sizes its leading extent from the batch rows; a batch-axis abstract interpretation finds no "
+            "reduction/statistic/selection along the batch axis or over all elements, no reshape of the batch, no raw-layout access "
+            "and no mutable state carried across rows on any predict path (helpers followed to depth 3; also for the scalers' and "
+            "whiteners' transforms); model types contain no interior mutability; the composing wrappers follow their parts. Not "
+            "decided: equality of floating-point roundings between batch and single-row evaluation.",
+    "design_ref": "DESIGN.md section 4, C03",
+    "note": "Trusted: rustc resolution/typeck, the fact dump; ndarray's elementwise ops, dot and row iterators are row-local.",
+    "technique": _T + ": batch-axis abstract interpretation, dominance of shape checks over output writes, type-closure scan for interior mutability",
+}
+
 CLAIMED["C04"] = {
     "text": "Decides the verdict of parameter checking for every value and combination at once: the accepted region of each of "
             "the 23 ParamGuard::check_ref bodies is computed from its guard structure with an interval-set algebra and must "
